@@ -359,6 +359,76 @@ def r19_8(ctx):
     ctx.check(n >= 3, "renderers-found", "-", "%d Renderer::render implementations analysed" % n, "only %d Renderer::render implementations found" % n)
 
 
+TEXT_CHANGING = {"trim", "trim_end", "trim_start", "trim_matches", "trim_end_matches", "trim_start_matches", "trim_ascii", "trim_ascii_end", "trim_ascii_start",
+                 "strip_suffix", "strip_prefix", "replace", "replacen", "to_lowercase", "to_uppercase", "to_ascii_lowercase", "to_ascii_uppercase", "truncate",
+                 "split_whitespace", "retain", "pop", "drain", "split_off"}
+STRICT_DECODERS = {"String::from_utf8", "str::from_utf8", "core::str::from_utf8", "from_utf8", "String::from_utf8_unchecked", "str::from_utf8_unchecked"}
+
+
+def _text_calls(prog, body, tree, depth=0):
+    """method names of all std calls in a provenance tree, descending into the result trees of closures found in it"""
+    out = []
+    for n in tree.walk():
+        if n.kind == "call":
+            out.append((method_name(n.a) or "", body))
+        if n.kind == "agg" and isinstance(n.a, tuple) and str(n.a[0]).startswith("closure ") and depth < 3:
+            cb = prog.body_by_def(n.a[0][len("closure "):], body.crate)
+            if cb is not None:
+                out.extend(_text_calls(prog, cb, Origins(cb).local(0), depth + 1))
+                for bb, t in cb.calls():
+                    out.append((mname(t) or "", cb))
+    return out
+
+
+def r19_9(ctx):
+    """what is shown of a difference is the text itself: (a) output bytes are decoded lossily - a strict from_utf8 with `?` fails the whole rendering on a
+    line that is not UTF-8; (b) between a DiffLine payload and the hunk buffers (diff) / push_str (pretty) the text passes through no trimming, cutting or
+    re-casing std call - trailing blanks are exactly what such a difference consists of"""
+    prog = ctx.prog
+    n_sites = 0
+    # (a) strict decoders in the renderers
+    strict = []
+    bodies = [b for b in prog.bodies if b.promoted is None and b.file.startswith("src/renderers/") and "::tests" not in b.npath]
+    lossy = 0
+    for b in bodies:
+        for bb, t in b.calls():
+            m = mname(t) or ""
+            if m in STRICT_DECODERS or m.endswith("::from_utf8"):
+                strict.append((b.loc(bb), m))
+            if m.endswith("from_utf8_lossy"):
+                lossy += 1
+    ctx.check(not strict and lossy >= 1, "lossy-decoding", strict[0][0] if strict else "src/renderers/", "the renderers decode output bytes lossily only (%d site(s)), no strict from_utf8" % lossy,
+              "a renderer decodes output bytes with %s: a failed test case whose output has a line that is not valid UTF-8 (latin-1 text, a cut multi-byte character) makes "
+              "the whole rendering fail - no report, exit 1 instead of 50" % sorted({m for _, m in strict}))
+    # (b) stores of the diff renderer
+    r = prog.fn("UnifiedDiff::render")
+    o = Origins(r)
+    for bb, t in r.calls():
+        if mname(t) in ("Extend::extend", "Vec::extend", "Vec::push", "Vec::extend_from_slice", "Vec::append"):
+            recv = r.arg_name(t["args"][0]) or ""
+            if "self" not in recv and "." not in recv:
+                continue
+            calls = _text_calls(prog, r, o.operand(t["args"][1]))
+            bad = sorted({m for m, _ in calls if m.split("::")[-1] in TEXT_CHANGING})
+            n_sites += 1
+            ctx.check(not bad, "diff-buffer-verbatim:" + recv.split(".")[-1], r.loc(bb), "`%s` receives the text as it is (line feed trimmed only)" % recv,
+                      "the text stored in `%s` passes through %s: an unexpected line that differs from the expectation only in trailing whitespace is shown as `-foo` / `+foo`, "
+                      "the rendering does not contain the line that was printed" % (recv, bad))
+    # pretty: text pushed to the output in render_malformed_output and its closures
+    pm = prog.impl_fn("PrettyColorRenderer", "ErrorRenderer", "render_malformed_output")
+    for b in [pm] + prog.closures_of(pm):
+        ob = Origins(b)
+        for bb, t in b.calls():
+            if mname(t) == "String::push_str":
+                calls = _text_calls(prog, b, ob.operand(t["args"][1]))
+                bad = sorted({m for m, _ in calls if m.split("::")[-1] in TEXT_CHANGING})
+                n_sites += 1
+                if bad:
+                    ctx.bad("pretty-text-verbatim", b.loc(bb), "the text written by the pretty renderer passes through %s: differences that consist of trailing whitespace are not shown" % bad)
+    ctx.check(n_sites >= 6, "text-sites", r.where(), "%d buffer stores / output writes analysed in the diff and pretty renderers" % n_sites,
+              "only %d buffer stores / output writes found (6 confirmed by reading)" % n_sites)
+
+
 def run(ctx):
     ctx.run_rule("R19.1", "no character count is used as a str byte offset in the renderers (incl. through helper results) [E-UNIT]", r19_1, floor=1)
     ctx.run_rule("R19.2", "exhaustive dispatch: render_error and both DiffLine switches give every variant its own arm [E-TABLE]", r19_2, floor=5)
@@ -367,4 +437,5 @@ def run(ctx):
     ctx.run_rule("R19.5", "structured renderers serialise the whole slice; Outcome always writes `result`; TestCaseError kinds distinct [E-TABLE]", r19_5, floor=6)
     ctx.run_rule("R19.7", "pretty gutter: Decorator width is derived from max(count_output_lines, expectations.len()) + base, an upper bound of every printed number (no `width - digits` underflow) [E-FLOW]", r19_7, floor=2)
     ctx.run_rule("R19.8", "no renderer drops an outcome between its argument and its loop (copy / re-order only; no dedup, retain, filter, take ..) [E-SITE]", r19_8, floor=4)
+    ctx.run_rule("R19.9", "the shown text is the text: output bytes decoded lossily only (no strict from_utf8 + `?`), no trimming / cutting / re-casing between a DiffLine payload and the hunk buffers / the pretty output [E-FLOW]", r19_9, floor=4)
     ctx.run_rule("R19.6", "index arithmetic in renderers listed (decided by R6.4 / C02)", r19_6, floor=1)
